@@ -62,6 +62,24 @@ func runFaultSuite(seed uint64, n int, out *Out, stats *Stats) {
 				h.Humans.answer = ans
 				h.Areg.Synchronize(0)
 				for k := 0; k < 1+r.Intn(3); k++ {
+					// the neighbors' own blocks carry wallet transactions that spend one output of a
+					// transaction and leave its others (what the rule-breaking candidates then twist)
+					var all []spendable
+					for _, wl := range w.wallets {
+						for _, u := range h.Ureg.Utxos(wl.Addr) {
+							v := u.Value(w.now+int64(k+1)*w.set.Interval, w.set.HalfLife, w.set.Base, w.set.ILimit)
+							if v > 3*w.set.Fee+30 {
+								all = append(all, spendable{u.TransactionId(), u.OutputIndex(), v, wl})
+							}
+						}
+					}
+					if len(all) > 0 && r.Chance(3, 4) {
+						u := all[r.Intn(len(all))]
+						third := (u.value - w.set.Fee) / 3
+						tx := w.build(&txPlan{ins: []spendable{u}, outs: []*JOutput{{w.wallets[r.Intn(5)].Addr, false, third}, {w.wallets[r.Intn(5)].Addr, false, third}, {u.owner.Addr, false, u.value - w.set.Fee - 2*third - 1}}, ts: w.now + int64(k)*w.set.Interval})
+						h.Pool.AddTransaction(tx, "x", "y")
+						w.rec.noteTx(tx)
+					}
 					h.Pool.Validate(w.now + int64(k+1)*w.set.Interval)
 				}
 			}
@@ -106,7 +124,14 @@ func runFaultSuite(seed uint64, n int, out *Out, stats *Stats) {
 					peers = append(peers, failingPeer(tgt, 2))
 					kinds = append(kinds, "empty")
 				case 4, 5, 6, 7:
-					mut, kind := w.mutateChain(MirrorBlocks(hn.AllBlocks()))
+					var mut []*JBlock
+					var kind string
+					if w.r.Chance(1, 3) {
+						// rule-breaking in a way only the application of the block notices
+						mut, kind = w.mutateChain(MirrorBlocks(hn.AllBlocks()), "double-spend")
+					} else {
+						mut, kind = w.mutateChain(MirrorBlocks(hn.AllBlocks()))
+					}
 					peers = append(peers, staticPeer(tgt, mut, w.set.Limit))
 					kinds = append(kinds, kind[:indexOrLen(kind, '@')])
 				case 8:
